@@ -247,7 +247,7 @@ int main(int argc, char **argv) {
   memset(sh, 0, sizeof *sh);
 
   int c;
-  while ((c = getopt(argc, argv, "t:s:n:o:S:r:m:M:F:d:gw:D:ZV:LGf:E:N:")) != -1) {
+  while ((c = getopt(argc, argv, "t:s:n:o:S:r:m:M:F:d:gw:D:ZV:LGf:E:N:U:")) != -1) {
     switch (c) {
       case 't': nblock = atoi(optarg); break;
       case 's': nspin = atoi(optarg); break;
@@ -380,12 +380,14 @@ int main(int argc, char **argv) {
         break;
       }
       case 'F': nfds = atoi(optarg); break;
+      case 'U':     // like -f, and the file is unlinked while it stays open
       case 'f': {
         char path[512]; size_t n = strlen(optarg) / 2, k;
         if (n >= sizeof path) n = sizeof path - 1;
         for (k = 0; k < n; k++) { unsigned v = 0; sscanf(optarg + 2 * k, "%2x", &v); path[k] = (char)v; }
         path[n] = 0;
         (void)open(path, O_CREAT | O_RDWR, 0600);   // stays open
+        if (c == 'U') unlink(path);
         break;
       }
       case 'd': ndso = atoi(optarg); break;
